@@ -11,6 +11,7 @@ func init() {
 
 // consumer program for C01/C03: a list of single-user operations.
 type consPlan struct {
+	diffWatch  []pause // Diff calls made by a second goroutine while the consumer's user works (C03)
 	startPause pause
 	ops        []int // 0 get, 1 commit, 2 rollback, 3 get-with-cancel, 4 diff
 	pauses     []pause
@@ -51,6 +52,24 @@ func (r *bufRun) runConsPlan(p consPlan) {
 		k := r.newConsumer(false, false)
 		if k == nil {
 			return
+		}
+		if len(p.diffWatch) > 0 {
+			r.tasksLeft++
+			go func() {
+				defer func() { r.tasksLeft-- }()
+				for _, pa := range p.diffWatch {
+					pa.do(r.unit)
+					if k.closeInv != 0 || r.stopInv != 0 {
+						return
+					}
+					w := &bufOp{kind: "diff", task: simrt.CurrentID()}
+					w.inv = simrt.Stamp()
+					w.n, w.known = r.b.Diff(k.c)
+					w.ret = simrt.Stamp()
+					k.watch = append(k.watch, w)
+					simrt.Probe("diff_by_second_goroutine")
+				}
+			}()
 		}
 		for i, op := range p.ops {
 			if simrt.Failed() {
